@@ -456,7 +456,7 @@ def retry_novelty(prog, chk):
     for (bb, t, sb) in setters:
         chk.bad(
             "A4.retry-amplification",
-            f"process_tags:{sb.short.split('::')[-1]}:novelty",
+            "process_tags:success-counter:novelty",
             b.where(bb, t.get("line")),
             f"the progress that licenses another pass of process_tags is a plain count of successful elements ({sb.short}): an element resolved again in a re-run of its container counts as progress again, so a failing container followed by a resolving sibling is run twice at every nesting level - an unresolvable reference inside N nested groups, each followed by a sibling element, is evaluated 2^N times (N <= depth limit 100)",
         )
